@@ -32,7 +32,7 @@ func zzCPU(c *corev1.Container) int64 {
 type zzC10Input struct {
 	affinityShape   string // nil | no-node-affinity | no-required | one-term | term-with-name
 	nContainers     int
-	annotation      string // "" | r1 | r2 | malformed      (override of container "agent" on the node)
+	annotation      string // "" | r1 | r2 | empty | malformed      (override of container "agent" on the node)
 	setting         string // "" | agent | sidecar         (container the valid setting gives resources to)
 	addAffinity     bool
 	strayAnnotation bool   // the node also carries an override for a container the template does not have (a leftover)
@@ -63,7 +63,9 @@ func zzC10Pick(crossTolerations bool) zzC10Input {
 	if nondet.Thorough() && nondet.Bool("twoContainers") {
 		in.nContainers = 2
 	}
-	switch nondet.String("nodeAnnotation", "", "r1", "r2", "malformed", "undecodable", "wrong-shape", "other-container", "r1-and-other-container") {
+	switch nondet.String("nodeAnnotation", "", "r1", "r2", "malformed", "undecodable", "wrong-shape", "other-container", "r1-and-other-container", "empty") {
+	case "empty":
+		in.annotation = "empty"
 	case "r1":
 		in.annotation = "r1"
 	case "r2":
@@ -169,6 +171,8 @@ func zzC10Build(in zzC10Input) (*datadoghqv1alpha1.ExtendedDaemonSetReplicaSet, 
 		node.Annotations[zzAnnPrefix+"agent"] = `{"requests":{"cpu":"200m"}}`
 	case "r2":
 		node.Annotations[zzAnnPrefix+"agent"] = `{"requests":{"cpu":"300m"},"limits":{"cpu":"1"}}`
+	case "empty": // a well-formed override that defines no resources: the container gets none (it is an override like any other)
+		node.Annotations[zzAnnPrefix+"agent"] = `{"limits":{}}`
 	case "malformed": // not JSON at all
 		node.Annotations[zzAnnPrefix+"agent"] = `{"requests":`
 	case "undecodable": // JSON, but not a quantity
@@ -278,6 +282,8 @@ func ZZ_C10_create() {
 		wantCPU = 200
 	case "r2":
 		wantCPU = 300
+	case "empty":
+		wantCPU = -1
 	}
 	nondet.Assert("C10.create.resources", zzCPU(&pod.Spec.Containers[0]) == wantCPU)
 	if in.nContainers == 2 {
